@@ -10,7 +10,12 @@ use crate::prng::{fnv, Rng};
 pub struct C03;
 
 pub fn gen_case(rng: &mut Rng, ctx: &mut Ctx, input: bool, stop: bool, faults: bool) -> ProgCase {
+    gen_case_with(rng, ctx, input, stop, faults, false)
+}
+
+pub fn gen_case_with(rng: &mut Rng, ctx: &mut Ctx, input: bool, stop: bool, faults: bool, rnd_input_subscript: bool) -> ProgCase {
     let mut k = Knobs::swarm(rng);
+    k.rnd_input_subscript = rnd_input_subscript;
     k.input = input && rng.chance(2, 3);
     k.stop = stop && rng.chance(1, 2);
     if ctx.tier == Tier::Thorough && rng.chance(1, 4) {
